@@ -36,6 +36,18 @@ def all_sigs():
                     yield (NAMES[:n], DEFAULTS[:nd], va, vk)
 
 
+AXIS_SIGS = [(['a', 'axis'], [0], None, None), (['axis'], [], None, 'kw'), (['a', 'b', 'axis'], ['dflt', 0], 'args', None)]
+
+
+def axis_calls():
+    """calls on functions that have a parameter called `axis` (loops consumes a keyword of that name)"""
+    for sig in AXIS_SIGS:
+        f_params = sig[0]
+        for args, kw in valid_calls(sig):
+            kw = {k: (5 if k == 'axis' else v) for k, v in kw.items()}
+            yield sig, args, kw
+
+
 def sig_enc(sig):
     params, defaults, va, vk = sig
     return '(T %s %s %s %s)' % (enc(list(params)), enc(list(defaults)), enc(va), enc(vk))
@@ -249,6 +261,11 @@ def generate(rng, tier):
                        lines=call_lines(sig, args, kw))
         for kind, args, kw in invalid_calls(rng, sig):
             yield dict(tag='invalid call ' + kind, lines=call_lines(sig, args, kw, ops=('bindref', 'getcallargs', 'apply')))
+    for sig, args, kw in axis_calls():
+        for c in CLASSES:
+            ds = [(c, deco_params(rng, c))] + ([(c2, deco_params(rng, c2)) for c2 in rng.sample(CLASSES, 1)] if rng.random() < 0.5 else [])
+            yield dict(tag='stack len=%d parameter-called-axis' % len(ds),
+                       lines=['(deco stack %s %s %s %s)' % (sig_enc(sig), decos_enc(ds), enc(list(args)), enc(dict(kw)))])
     EXTRA['enumerated_valid_calls'] = len(allcalls)
     EXTRA['signatures'] = len(sigs)
     # every stack of <= 3 decorators on a few calls each (valid, raising, invalid)
@@ -317,10 +334,16 @@ def run_line(state, sx):
     if op == 'mk':
         g = make_fn((['a', 'b'], [1], None, None))
         base = g
+        made = []
         for cls, params in decos_dec(a[0]):
             g = construct(cls, params, g)
+            made.append((g, enc([(c, p) for c, p in dump(g)[0]])))
         chain, b = dump(g)
         assert b is base
+        # observation outside the property statement: did a constructor edit an earlier object in place?
+        EXTRA['constructions'] = EXTRA.get('constructions', 0) + 1
+        if any(enc([(c, p) for c, p in dump(o)[0]]) != d for o, d in made):
+            EXTRA['constructions_that_edited_an_operand_in_place'] = EXTRA.get('constructions_that_edited_an_operand_in_place', 0) + 1
         return 'ok ' + enc([(c, p) for c, p in chain])
     sig = sig_dec(a[0])
     f = make_fn(sig)
@@ -442,7 +465,7 @@ def laws(rng, tier, ctx):
                           'call_with_callargs(f, getcallargs(f, ...)) gives %r, f(...) gives %r' % (rt, direct))
     # (2) transparency of every single decorator and of random stacks on every enumerated valid call; spec forwarded
     stacks = [[(c, deco_params(rng, c))] for c in CLASSES]
-    for sig, args, kw in allcalls:
+    for sig, args, kw in allcalls + list(axis_calls()):
         f = make_fn(sig)
         direct = f(*args, **kw)
         for ds in stacks + [[(c, deco_params(rng, c)) for c in rng.sample(CLASSES, rng.choice([2, 3]))]]:
@@ -541,12 +564,30 @@ def laws(rng, tier, ctx):
     yield count
 
 
+def line_is_k4(line):
+    """loops in the stack, the call passes a keyword called `axis` together with a first argument"""
+    sx = proto.parse(line)
+    if sx[1] != 'stack':
+        return False
+    params = sig_dec(sx[2])[0]
+    if not any(c == 'loops' for c, _ in decos_dec(sx[3])):
+        return False
+    args, kw = proto.dec(sx[4]), proto.dec(sx[5])
+    return 'axis' in kw and (len(args) > 0 or (params and params[0] in kw))
+
+
+def _k4(f):
+    lines = f.case.get('lines') or []
+    return bool(lines) and f.case.get('tag') == 'law-transparent' and line_is_k4(lines[-1])
+
+
 def _k1(f):
     lines = f.case.get('lines') or []
     return bool(lines) and all(line_is_k1(l) for l in lines[-1:]) and ('stack' in f.case.get('tag', '') or f.case.get('tag') == 'law-transparent')
 
 
-MATCHERS = {'kwargs_support_drops_undeclared_keyword_of_varkw_function': _k1}
+MATCHERS = {'kwargs_support_drops_undeclared_keyword_of_varkw_function': _k1,
+            'loops_consumes_keyword_called_axis': _k4}
 
 
 def shrink(case, still_fails):
